@@ -1,11 +1,664 @@
-// Package c11 is the correspondence/oracle harness for property C11.
+// Package c11: header/footer exclusion removes only repeated marginal text.
+//
+// Correspondence ops (all answered by lean/TabulaModel/Handlers/C11.lean):
+//
+//	c11.hf <page>...      page = idx:height:frag|frag|...  frag = hextext,x,y,w,h,fs  (numbers n or n/d)
+//	                      => "k" then per page the kept fragment ids "0,2,3" or "-"
+//	c11.detect <page>...  => H=<hextext:ispn:p,p,..;...> F=<...> (sorted; "-" when empty)
+//	c11.norm <hex> | c11.ispn <hex> | c11.match <hexfrag> <hexregion> <0|1> | c11.cpn l=<hexlist>
+//	c11.charlevel l=<hexlist> | c11.docx|c11.odt <hextext> h=<hexlist> f=<hexlist> <exH> <exF> | c11.pptx <hex>
 package c11
 
-import "verifharness/hx"
+import (
+	"encoding/json"
+	"fmt"
+	"math/big"
+	"os"
+	"path/filepath"
+	"sort"
+	"strconv"
+	"strings"
+
+	"github.com/tsawler/tabula"
+	"github.com/tsawler/tabula/docx"
+	"github.com/tsawler/tabula/layout"
+	"github.com/tsawler/tabula/odt"
+	"github.com/tsawler/tabula/pptx"
+	"github.com/tsawler/tabula/text"
+
+	"verifharness/hx"
+)
 
 func init() { hx.Register("C11", Run, Replay) }
 
-// Run is not built yet for this property.
-func Run(c *hx.Ctx) { c.Note("C11: harness not built") }
+// ---- adapters ------------------------------------------------------------------------
 
-func Replay(c *hx.Ctx, kase map[string]interface{}) {}
+func toLayout(d Doc) []layout.PageFragments {
+	out := make([]layout.PageFragments, len(d.Pages))
+	for i, p := range d.Pages {
+		fs := make([]text.TextFragment, len(p.F))
+		for j, f := range p.F {
+			fs[j] = text.TextFragment{Text: f.T, X: float64(f.X), Y: float64(f.Y), Width: float64(f.W),
+				Height: float64(f.H), FontSize: float64(f.FS), FontName: "F" + strconv.Itoa(j)}
+		}
+		out[i] = layout.PageFragments{PageIndex: p.I, PageHeight: float64(p.H), PageWidth: float64(p.W), Fragments: fs}
+	}
+	return out
+}
+
+// keptIDs maps a filtered fragment list back to indices of the original list
+// (greedy subsequence match on the whole fragment value).
+func keptIDs(orig, out []text.TextFragment) ([]int, bool) {
+	ids := make([]int, 0, len(out))
+	j := 0
+	for _, o := range out {
+		for j < len(orig) && orig[j] != o {
+			j++
+		}
+		if j == len(orig) {
+			return nil, false
+		}
+		ids = append(ids, j)
+		j++
+	}
+	return ids, true
+}
+
+func ratOf(x float64) string {
+	r := new(big.Rat)
+	if r.SetFloat64(x) == nil {
+		return "0"
+	}
+	if r.IsInt() {
+		return r.Num().String()
+	}
+	return r.Num().String() + "/" + r.Denom().String()
+}
+
+func pagesField(pages []layout.PageFragments) string {
+	var sb strings.Builder
+	for i, p := range pages {
+		if i > 0 {
+			sb.WriteByte(' ')
+		}
+		fmt.Fprintf(&sb, "%d:%s:", p.PageIndex, ratOf(p.PageHeight))
+		for j, f := range p.Fragments {
+			if j > 0 {
+				sb.WriteByte('|')
+			}
+			fmt.Fprintf(&sb, "%s,%s,%s,%s,%s,%s", hx.HexS(f.Text), ratOf(f.X), ratOf(f.Y), ratOf(f.Width), ratOf(f.Height), ratOf(f.FontSize))
+		}
+	}
+	return sb.String()
+}
+
+func opLine(op string, pages []layout.PageFragments) string {
+	if len(pages) == 0 {
+		return op
+	}
+	return op + " " + pagesField(pages)
+}
+
+func keptLine(kept [][]int, isSub []bool) string {
+	var sb strings.Builder
+	sb.WriteString("k")
+	for i, ids := range kept {
+		sb.WriteByte(' ')
+		if !isSub[i] {
+			sb.WriteString("not-a-sublist")
+			continue
+		}
+		if len(ids) == 0 {
+			sb.WriteByte('-')
+			continue
+		}
+		for j, id := range ids {
+			if j > 0 {
+				sb.WriteByte(',')
+			}
+			sb.WriteString(strconv.Itoa(id))
+		}
+	}
+	return sb.String()
+}
+
+func regionsLine(res *layout.HeaderFooterResult) string {
+	f := func(rs []layout.HeaderFooterRegion) string {
+		if len(rs) == 0 {
+			return "-"
+		}
+		var es []string
+		for _, r := range rs {
+			ps := make([]string, len(r.PageIndices))
+			for i, p := range r.PageIndices {
+				ps[i] = strconv.Itoa(p)
+			}
+			pn := "0"
+			if r.IsPageNumber {
+				pn = "1"
+			}
+			es = append(es, hx.HexS(r.Text)+":"+pn+":"+strings.Join(ps, ","))
+		}
+		sort.Strings(es)
+		return strings.Join(es, ";")
+	}
+	return "H=" + f(res.Headers) + " F=" + f(res.Footers)
+}
+
+// runLayout drives layout.NewHeaderFooterDetector().Detect(pages).FilterFragments(...).
+func runLayout(pages []layout.PageFragments) (res *layout.HeaderFooterResult, kept [][]int, isSub []bool, panicked string) {
+	kept = make([][]int, len(pages))
+	isSub = make([]bool, len(pages))
+	panicked = hx.Safe(func() {
+		res = layout.NewHeaderFooterDetector().Detect(pages)
+		for i, p := range pages {
+			in := append([]text.TextFragment(nil), p.Fragments...)
+			out := res.FilterFragments(p.PageIndex, in, p.PageHeight)
+			kept[i], isSub[i] = keptIDs(p.Fragments, out)
+		}
+	})
+	return
+}
+
+// floatAmbiguous drops documents in which some fragment sits exactly on a scaled,
+// non-integer band threshold (72*contentHeight/pageHeight): float64 and exact
+// arithmetic may then legitimately disagree (DESIGN 3.3).
+func floatAmbiguous(c *hx.Ctx, d Doc) bool {
+	for _, p := range d.Pages {
+		if viewOf(p).ambiguous {
+			c.Count("dropped:float-ambiguous-threshold")
+			return true
+		}
+	}
+	return false
+}
+
+// ---- direct path -----------------------------------------------------------------------
+
+func directCase(c *hx.Ctx, d Doc, emitOps bool) {
+	ci := caseInfo{Mode: "direct", Doc: d}
+	if floatAmbiguous(c, d) {
+		return
+	}
+	pages := toLayout(d)
+	res, kept, isSub, pan := runLayout(pages)
+	if !c.Check("C11/panic", pan == "", ci, func() string { return "Detect/FilterFragments panicked: " + pan }) {
+		return
+	}
+	if emitOps {
+		c.Op(opLine("c11.detect", pages), regionsLine(res))
+		c.Op(opLine("c11.hf", pages), keptLine(kept, isSub))
+	}
+	checkDoc(c, ci, kept, isSub)
+	removed := 0
+	for i, p := range d.Pages {
+		removed += len(p.F) - len(kept[i])
+	}
+	for _, t := range strings.Split(d.Tags, ",") {
+		if t != "" {
+			c.Count("doc:" + t)
+		}
+	}
+	c.Count(fmt.Sprintf("pages:%s", bucket(len(d.Pages))))
+	if removed > 0 {
+		c.Count("result:something-removed")
+	} else {
+		c.Count("result:unchanged")
+	}
+	b, _ := json.Marshal(d.Pages)
+	c.Case(string(b), len(d.Pages) > 0 && removed > 0)
+}
+
+func bucket(n int) string {
+	switch {
+	case n <= 2:
+		return strconv.Itoa(n)
+	case n <= 4:
+		return "3-4"
+	case n <= 8:
+		return "5-8"
+	}
+	return "9+"
+}
+
+// ---- rendered-PDF path -----------------------------------------------------------------
+
+func pdfOf(d Doc, r *hx.Rng) []byte {
+	pp := make([]pdfPage, len(d.Pages))
+	for i, p := range d.Pages {
+		pp[i] = pdfPage{W: p.W, H: p.H}
+		for _, f := range p.F {
+			pp[i].Frags = append(pp[i].Frags, pdfFrag{Text: f.T, X: f.X, Y: f.Y, FontSize: f.FS, UseTd: r != nil && r.Bool()})
+		}
+	}
+	return writePDF(pp)
+}
+
+func withExcl(e *tabula.Extractor, excl string) *tabula.Extractor {
+	switch excl {
+	case "h":
+		return e.ExcludeHeaders()
+	case "f":
+		return e.ExcludeFooters()
+	}
+	return e.ExcludeHeadersAndFooters()
+}
+
+func textLines(s string) []string {
+	var out []string
+	for _, l := range strings.Split(s, "\n") {
+		if l = strings.TrimSpace(l); l != "" {
+			out = append(out, l)
+		}
+	}
+	sort.Strings(out)
+	return out
+}
+
+func pdfCase(c *hx.Ctx, d Doc, subset []int, excl string, r *hx.Rng, emitOps bool) {
+	ci := caseInfo{Mode: "pdf", Doc: d, Subset: subset, Excl: excl}
+	if floatAmbiguous(c, d) {
+		return
+	}
+	dir := filepath.Join(c.OutDir, "pdf")
+	os.MkdirAll(dir, 0o755)
+	fn := filepath.Join(dir, "case.pdf")
+	if err := os.WriteFile(fn, pdfOf(d, r), 0o644); err != nil {
+		c.Note("cannot write %s: %v", fn, err)
+		return
+	}
+	n := len(d.Pages)
+	// unfiltered fragments per page, as tabula extracts them
+	raw := make([]layout.PageFragments, n)
+	var pan string
+	okRaw := true
+	pan = hx.Safe(func() {
+		for i := 0; i < n; i++ {
+			fr, _, err := tabula.Open(fn).Pages(i + 1).Fragments()
+			if err != nil {
+				okRaw = false
+				return
+			}
+			raw[i] = layout.PageFragments{PageIndex: i, PageHeight: float64(d.Pages[i].H), PageWidth: float64(d.Pages[i].W), Fragments: fr}
+		}
+	})
+	if !c.Check("C11/panic", pan == "", ci, func() string { return "Fragments() panicked: " + pan }) {
+		return
+	}
+	if !okRaw {
+		c.Count("pdf:extract-error")
+		return
+	}
+	// the writer's fragments must come back as written (positions are what the property talks about)
+	same := true
+	for i, p := range d.Pages {
+		if len(raw[i].Fragments) != len(p.F) {
+			same = false
+			break
+		}
+		for j, f := range p.F {
+			g := raw[i].Fragments[j]
+			if g.Text != f.T || g.X != float64(f.X) || g.Y != float64(f.Y) || g.Height != float64(f.H) {
+				same = false
+			}
+		}
+	}
+	if !same {
+		c.Count("pdf:fragments-differ-from-written(skipped)")
+		return
+	}
+	// per page through the public API: Lines() carries the surviving fragments
+	kept := make([][]int, n)
+	isSub := make([]bool, n)
+	narrow := false
+	pan = hx.Safe(func() {
+		for i := 0; i < n; i++ {
+			base, err := tabula.Open(fn).Pages(i + 1).Lines()
+			if err != nil {
+				okRaw = false
+				return
+			}
+			nb := 0
+			for _, l := range base {
+				nb += len(l.Fragments)
+			}
+			if nb != len(raw[i].Fragments) {
+				narrow = true // the line detector itself drops fragments (not C11's business)
+				return
+			}
+			ls, err := withExcl(tabula.Open(fn).Pages(i+1), excl).Lines()
+			if err != nil {
+				okRaw = false
+				return
+			}
+			var ids []int
+			ok := true
+			for _, l := range ls {
+				for _, f := range l.Fragments {
+					found := -1
+					for j, g := range raw[i].Fragments {
+						if g == f {
+							found = j
+						}
+					}
+					if found < 0 {
+						ok = false
+					}
+					ids = append(ids, found)
+				}
+			}
+			sort.Ints(ids)
+			for j := 1; j < len(ids); j++ {
+				if ids[j] == ids[j-1] {
+					ok = false
+				}
+			}
+			kept[i], isSub[i] = ids, ok
+		}
+	})
+	if !c.Check("C11/panic", pan == "", ci, func() string { return "Lines() panicked: " + pan }) {
+		return
+	}
+	if !okRaw || narrow {
+		c.Count("pdf:line-detector-drops-fragments(skipped)")
+		return
+	}
+	if emitOps {
+		c.Op(opLine("c11.hf", raw), keptLine(kept, isSub))
+	}
+	checkDoc(c, ci, kept, isSub)
+	c.Count("pdf:excl=" + excl)
+
+	// Text(): the filtered text consists of exactly the surviving fragments' texts
+	for i := 0; i < n; i++ {
+		if !isSub[i] {
+			continue
+		}
+		var txt string
+		var err error
+		pan = hx.Safe(func() { txt, _, err = withExcl(tabula.Open(fn).Pages(i+1), excl).Text() })
+		if !c.Check("C11/panic", pan == "", ci, func() string { return "Text() panicked: " + pan }) {
+			return
+		}
+		if err != nil {
+			continue
+		}
+		var want []string
+		for _, id := range kept[i] {
+			want = append(want, strings.TrimSpace(d.Pages[i].F[id].T))
+		}
+		sort.Strings(want)
+		got := textLines(txt)
+		c.Check("C11/text-differs-from-fragments", strings.Join(got, "\n") == strings.Join(want, "\n"), ci, func() string {
+			return fmt.Sprintf("page %d: Exclude…().Text() lines %q, surviving fragments %q", i+1, got, want)
+		})
+	}
+
+	// page subsets requested together with exclusion: detection must still use all pages
+	if len(subset) > 0 {
+		_, allKept, allSub, _ := runLayout(raw)
+		var want []string
+		okAll := true
+		for _, k := range subset {
+			if !allSub[k] {
+				okAll = false
+				continue
+			}
+			for _, id := range allKept[k] {
+				f := raw[k].Fragments[id]
+				want = append(want, fmt.Sprintf("%s@%v,%v", f.Text, f.X, f.Y))
+			}
+		}
+		if okAll {
+			nums := make([]int, len(subset))
+			for i, k := range subset {
+				nums[i] = k + 1
+			}
+			var got []string
+			var err error
+			pan = hx.Safe(func() {
+				var ls []layout.Line
+				ls, err = withExcl(tabula.Open(fn).Pages(nums...), excl).Lines()
+				for _, l := range ls {
+					for _, f := range l.Fragments {
+						got = append(got, fmt.Sprintf("%s@%v,%v", f.Text, f.X, f.Y))
+					}
+				}
+			})
+			if c.Check("C11/panic", pan == "", ci, func() string { return "Pages(S).Lines() panicked: " + pan }) && err == nil {
+				sort.Strings(got)
+				sort.Strings(want)
+				c.Check("C11/subset-detection", strings.Join(got, "\n") == strings.Join(want, "\n"), ci, func() string {
+					return fmt.Sprintf("Pages(%v) with exclusion kept %q; filtering those pages with regions detected on all %d pages keeps %q",
+						nums, got, n, want)
+				})
+				c.Count("pdf:subset")
+			}
+		}
+	}
+	b, _ := json.Marshal(ci)
+	c.Case("pdf"+string(b), true)
+}
+
+// ---- micro ops on the helper functions -----------------------------------------------------
+
+var microTexts = []string{"", " ", "3", "Page 3", "page 12", "PAGE 7", "- 3 -", "3 of 10", "Page 3 of 10", "3/10", "3 / 10",
+	"p. 3", "p.3", "pg 3", "pg. 3", "PG. 44", "P.3", "Page3", "Page  3", "page 3 ", "\tPage 3\n", " Page 3 ", "  7 　",
+	"iii", "ACME Report", "ACME Report 2024", "Annual Report 2024", "Chapter 3 Results", "12 Angry Men 1957", "a1b22c333", "#", "# of #", "Page #",
+	"٣", "Page ٣", "1,234", "3.14", "-5", "v2", "Q3", "日本語3ページ", "Page 3 of", "of 3", "3 of", "p . 3", "№ 5", "Seite 3", "K 3", "K 3",
+	"0007", "99999999999999999999", "18446744073709551617", "Page 18446744073709551616", "x\u0085", "\u0085x\u0085", "\xff3\xfe", "3\xc2", "\xa0 3"}
+
+func mutateText(r *hx.Rng, s string) string {
+	switch r.Intn(8) {
+	case 0:
+		return strings.ToUpper(s)
+	case 1:
+		return " " + s + "  "
+	case 2:
+		return s + strconv.Itoa(r.Intn(1000))
+	case 3:
+		return strconv.Itoa(r.Intn(50)) + s
+	case 4:
+		return digitRun.ReplaceAllStringFunc(s, func(string) string { return strconv.Itoa(r.Intn(300)) })
+	case 5:
+		return s + hx.Pick(r, microTexts)
+	case 6:
+		if len(s) > 1 {
+			k := r.Intn(len(s))
+			return s[:k] + s[k+1:]
+		}
+	}
+	return s
+}
+
+func b01(b bool) string {
+	if b {
+		return "1"
+	}
+	return "0"
+}
+
+func microOps(c *hx.Ctx) {
+	r := c.Rng.Fork(7777)
+	n := c.N(600, 8000)
+	for i := 0; i < n; i++ {
+		s := hx.Pick(r, microTexts)
+		if i >= len(microTexts) {
+			s = mutateText(r, s)
+		} else {
+			s = microTexts[i]
+		}
+		c.Op("c11.norm "+hx.HexS(s), hx.HexS(layout.VerifNormalizeForComparison(s)))
+		c.Op("c11.ispn "+hx.HexS(s), b01(layout.VerifIsPageNumberPattern(s)))
+		t := mutateText(r, hx.Pick(r, microTexts))
+		if r.Chance(1, 3) {
+			t = mutateText(r, s)
+		}
+		pn := r.Chance(1, 3)
+		c.Op("c11.match "+hx.HexS(s)+" "+hx.HexS(t)+" "+b01(pn), b01(layout.VerifTextsMatch(s, t, pn)))
+		// groups of candidate texts for containsPageNumberPattern / isCharacterLevel
+		k := r.Range(0, 6)
+		var grp []string
+		style := r.Intn(nPNStyles + 2)
+		start := r.Range(1, 40)
+		for j := 0; j < k; j++ {
+			switch {
+			case style < nPNStyles:
+				grp = append(grp, pageNumberText(style, start+j*r.Range(1, 2), start+k))
+			case style == nPNStyles:
+				grp = append(grp, hx.Pick(r, microTexts))
+			default:
+				grp = append(grp, mutateText(r, s))
+			}
+		}
+		c.Op("c11.cpn l="+hx.HexList(grp), b01(layout.VerifContainsPageNumberPattern(grp)))
+		c.Op("c11.charlevel l="+hx.HexList(grp), b01(layout.VerifIsCharacterLevel(grp)))
+		c.Count("micro:text")
+		c.Case("micro:"+s+"|"+t, true)
+	}
+	// DOCX / ODT paragraph exclusion and PPTX placeholders (decision tables)
+	parts := []string{"ACME Report", "Page 3", "Confidential\nDraft", "  Spaced  ", "", "\n", "A\n\nB", "Footer line", "ACME Report\nPage 3"}
+	paras := []string{"ACME Report", " ACME Report ", "Page 3", "Confidential", "Draft", "Confidential\nDraft", "Spaced", "", "  ", "A", "B",
+		"Body text", "Footer line", "acme report", "ACME Report "}
+	m := c.N(400, 6000)
+	for i := 0; i < m; i++ {
+		var hs, fs []string
+		for j := r.Intn(3); j > 0; j-- {
+			hs = append(hs, hx.Pick(r, parts))
+		}
+		for j := r.Intn(3); j > 0; j-- {
+			fs = append(fs, hx.Pick(r, parts))
+		}
+		p := hx.Pick(r, paras)
+		exH, exF := r.Bool(), r.Bool()
+		args := fmt.Sprintf("%s h=%s f=%s %s %s", hx.HexS(p), hx.HexList(hs), hx.HexList(fs), b01(exH), b01(exF))
+		gd := docx.VerifShouldExcludeParagraph(p, hs, fs, docx.ExtractOptions{ExcludeHeaders: exH, ExcludeFooters: exF})
+		go_ := odt.VerifShouldExcludeParagraph(p, hs, fs, odt.ExtractOptions{ExcludeHeaders: exH, ExcludeFooters: exF})
+		c.Op("c11.docx "+args, b01(gd))
+		c.Op("c11.odt "+args, b01(go_))
+		// statement: a paragraph is removed only if exclusion was asked for and it equals a header/footer line
+		if gd || go_ {
+			eq := false
+			for _, group := range [][]string{hs, fs} {
+				for _, t := range group {
+					for _, l := range strings.Split(t, "\n") {
+						if strings.TrimSpace(l) != "" && strings.TrimSpace(l) == strings.TrimSpace(p) {
+							eq = true
+						}
+					}
+				}
+			}
+			c.Check("C11/docx-removed-unrelated", eq && (exH || exF), map[string]interface{}{"mode": "docx", "p": p, "h": hs, "f": fs, "exh": exH, "exf": exF},
+				func() string { return fmt.Sprintf("paragraph %q removed; headers %q footers %q", p, hs, fs) })
+		}
+		c.Count("micro:docx-odt")
+	}
+	for _, ph := range []string{"", "ftr", "dt", "sldNum", "hdr", "title", "body", "ctrTitle", "subTitle", "FTR", "ftr ", "pic", "sldImg"} {
+		c.Op("c11.pptx "+hx.HexS(ph), b01(pptx.VerifIsFooterPlaceholder(ph))+b01(pptx.VerifIsHeaderPlaceholder(ph)))
+	}
+}
+
+// ---- fixed witnesses (run first) -------------------------------------------------------------
+
+func witnessB20() Doc {
+	var d Doc
+	for i := 0; i < 3; i++ {
+		p := Page{I: i, H: 792, W: 612}
+		p.F = append(p.F, Frag{T: "ACME Report", X: 72, Y: 760, W: 74, H: 12, FS: 12, L: -1})
+		if i == 1 {
+			p.F = append(p.F, Frag{T: "ACME Report", X: 72, Y: 700, W: 74, H: 12, FS: 12, L: -1})
+		}
+		p.F = append(p.F, Frag{T: fmt.Sprintf("Body text of page %d", i+1), X: 72, Y: 400, W: 120, H: 12, FS: 12, L: -1})
+		d.Pages = append(d.Pages, p)
+	}
+	d.Tags = "witness-B20"
+	return d
+}
+
+func witnessEmbeddedNumber() Doc {
+	var d Doc
+	for i := 0; i < 3; i++ {
+		p := Page{I: i, H: 792, W: 612}
+		p.F = append(p.F, Frag{T: fmt.Sprintf("ACME Report - %d", i+1), X: 72, Y: 760, W: 100, H: 12, FS: 12, L: -1})
+		p.F = append(p.F, Frag{T: fmt.Sprintf("Body text of page %d", i+1), X: 72, Y: 400, W: 120, H: 12, FS: 12, L: -1})
+		d.Pages = append(d.Pages, p)
+	}
+	d.Tags = "witness-embedded-number"
+	return d
+}
+
+func witnessCharLevel() Doc {
+	var d Doc
+	for i := 0; i < 3; i++ {
+		p := Page{I: i, H: 792, W: 612}
+		p.F = append(p.F, Frag{T: "ACME Report", X: 72, Y: 760, H: 12, FS: 12, L: -1})
+		if i == 1 {
+			p.F = append(p.F, Frag{T: "Chapter Two", X: 72, Y: 740, H: 12, FS: 12, L: -1})
+		}
+		p.F = append(p.F, Frag{T: "Body text here", X: 72, Y: 400, H: 12, FS: 12, L: -1})
+		d.Pages = append(d.Pages, explode(p))
+	}
+	d.Tags = "witness-F8-charlevel"
+	return d
+}
+
+// ---- Run / Replay ------------------------------------------------------------------------------
+
+func Run(c *hx.Ctx) {
+	c.Rep.Rule = "multi-page fragment sets with integer coordinates built from the quantifier: 1-14 pages; running header/footer on all pages, " +
+		"all but the first, odd/even alternation or a random subset; page numbers in 13 styles (3, Page 3, 3 / 10, - 3 -, Page 3 of 10, 3/10, p. 3, roman, …) " +
+		"in header or footer; body lines repeating across pages (incl. the header's own text placed in the body band just below the margin), purely numeric body lines; " +
+		"unique marginal texts; double-struck titles; positions jittered within/beyond tolerance; boundary distances 71/72/73; inverted (top-down, oversized) coordinates; " +
+		"character-level pages; empty pages. Each document goes through layout.NewHeaderFooterDetector().Detect(pages).FilterFragments(...) and, rendered by an independent " +
+		"PDF writer, through tabula.Open(f).Pages(S).ExcludeHeaders()/ExcludeFooters()/ExcludeHeadersAndFooters().Lines()/Text(). Non-trivial = at least one fragment was removed."
+	for _, d := range []Doc{witnessB20(), witnessEmbeddedNumber(), witnessCharLevel()} {
+		directCase(c, d, true)
+	}
+	pdfCase(c, witnessB20(), []int{1}, "hf", nil, true)
+	microOps(c)
+	nd := c.N(1500, 15000)
+	for i := 0; i < nd; i++ {
+		r := c.Rng.Fork(uint64(i))
+		directCase(c, genDoc(r, genOpts{}), true)
+	}
+	np := c.N(250, 2500)
+	for i := 0; i < np; i++ {
+		r := c.Rng.Fork(uint64(1_000_000 + i))
+		d := genDoc(r, genOpts{pdfSafe: true})
+		var subset []int
+		if r.Chance(2, 3) {
+			for k := range d.Pages {
+				if r.Chance(1, 2) {
+					subset = append(subset, k)
+				}
+			}
+		}
+		excl := hx.Pick(r, []string{"h", "f", "hf"})
+		pdfCase(c, d, subset, excl, r, true)
+	}
+	os.RemoveAll(filepath.Join(c.OutDir, "pdf"))
+}
+
+func Replay(c *hx.Ctx, kase map[string]interface{}) {
+	b, _ := json.Marshal(kase)
+	var ci caseInfo
+	if err := json.Unmarshal(b, &ci); err != nil {
+		c.Note("bad case: %v", err)
+		return
+	}
+	switch ci.Mode {
+	case "pdf":
+		pdfCase(c, ci.Doc, ci.Subset, ci.Excl, nil, false)
+	case "docx":
+		var k struct {
+			P        string
+			H, F     []string
+			ExH, ExF bool
+		}
+		json.Unmarshal(b, &k)
+		gd := docx.VerifShouldExcludeParagraph(k.P, k.H, k.F, docx.ExtractOptions{ExcludeHeaders: k.ExH, ExcludeFooters: k.ExF})
+		c.Note("docx shouldExcludeParagraph=%v", gd)
+	default:
+		directCase(c, ci.Doc, false)
+	}
+}
